@@ -31,6 +31,7 @@ type params struct {
 	Init    int    // index into preambles: the start state
 	Pattern []bool // kind of the k-th block appended during the search (true: with info update)
 	Depth   int
+	Reorg   bool // one L1 reorg of unfinalized pattern blocks may happen (event L1Reorg)
 }
 
 // preambles are executed (through the same real transition function) before the search starts;
@@ -90,7 +91,7 @@ func units(tier string) []mc.Unit {
 					bits[k] = pat>>(f.Blocks-1-k)&1 == 1
 				}
 				// the configuration (finality tag, updates per info block) rotates over the units
-				p := params{Tag: tags[n%3], Upd: 1 + (n/3)%2, Init: init, Pattern: bits, Depth: depthFor(f, init)}
+				p := params{Tag: tags[n%3], Upd: 1 + (n/3)%2, Init: init, Pattern: bits, Depth: depthFor(f, init), Reorg: f.Blocks <= 3}
 				n++
 				us = append(us, mc.Unit{Name: fmt.Sprintf("start=%d,blocks=%s,depth=%d,upd=%d,tag=%s", init, patternName(bits), p.Depth, p.Upd, p.Tag), Params: p})
 			}
@@ -115,6 +116,7 @@ func execute(c sink, p params, history []string) (string, []string, error) {
 			return "", nil, fmt.Errorf("preamble event %d %s: %w", i, ev, err)
 		}
 	}
+	w.nInit = len(w.blocks)
 	for i, ev := range history {
 		w.live = i == len(history)-1
 		if err := w.step(ev, true); err != nil {
@@ -195,11 +197,11 @@ func main() {
 		Setup:   func(string) { kit.Quiet() },
 		Rule: "unit = (start state, kinds of the blocks appended during the search, depth; finality tag and info updates per block rotate " +
 			"over the units); inside a unit E-BFS over all histories of the events {L1Block, Finalize, SyncerProcess, Tick, Tick with one " +
-			"failing dependency (4 kinds), ForeignInject (2 targets)} up to the depth bound, each transition re-executed from scratch on a " +
+			"failing dependency (4 kinds), ForeignInject (2 targets), L1Reorg(tip | first unfinalized pattern block; at most one; units with <= 3 pattern blocks)} up to the depth bound, each transition re-executed from scratch on a " +
 			"fresh real store and a fresh real oracle; states merged by (chain, finalized, syncer position, L2 roots, blockNumToFetch, " +
-			"oracle bookkeeping); non-trivial/distinct = executions reaching a state not seen before in the unit",
+			"oracle bookkeeping, after a reorg: fork content and how many blocks the store was rewound); non-trivial/distinct = executions reaching a state not seen before in the unit",
 		Assumptions: []string{
-			"L1 does not reorg below what the syncer has processed (the oracle property is about finalized blocks; reorg handling of the store is C04/C06)",
+			"an L1 reorg replaces unfinalized blocks only, and the syncer's store is rewound at once when it holds replaced blocks (detection delays of the reorg detector are C06); the replaced blocks are produced again by the unit's block pattern with different content",
 			"GERs are unique per leaf (exit roots come from append-only trees)",
 			"a failing dependency fails the next call of that kind once within the tick; failures of the store inside a transaction are C07",
 			"one oracle process; a second injector appears only as ForeignInject",
